@@ -1454,7 +1454,7 @@ package p9p
 //@ func (codec9p).Unmarshal#any
 //@ timeout 60
 //@ property C04
-//@ use wirekind wiredefr bytes bytes_split noassoc wirelist
+//@ use wirekind wiredefr bytes bytes_split noassoc wirelist time
 //@ dyn v : *Fcall
 //@ let V = (*v.(*Fcall))
 //@ let T0 = dec1(btake(bytes(data), 1))
@@ -1466,6 +1466,13 @@ package p9p
 // Stat records are accepted even when their size prefixes disagree with their content (the decoder does not compare
 // them), so for Rstat/Twstat the input need not be the canonical layout of the result; for all other kinds it is:
 //@ ensures consumed_layout: err == nil && !STAT ==> blen(layout(V)) <= len(data) && btake(old(bytes(data)), blen(layout(V))) == layout(V)
+// ... and a decoded stat record carries representable strings and whole-second UTC timestamps in 32 bits
+//@ let RS = V.Message.(MessageRstat).Stat
+//@ let WS = V.Message.(MessageTwstat).Stat
+//@ ensures rstat_times: err == nil && typeis(V.Message, MessageRstat) ==> 0 <= unix(RS.AccessTime) && unix(RS.AccessTime) <= 4294967295 && RS.AccessTime == utc(unix(RS.AccessTime)) && 0 <= unix(RS.ModTime) && unix(RS.ModTime) <= 4294967295 && RS.ModTime == utc(unix(RS.ModTime))
+//@ ensures rstat_strings: err == nil && typeis(V.Message, MessageRstat) ==> len(RS.Name) <= 65535 && len(RS.UID) <= 65535 && len(RS.GID) <= 65535 && len(RS.MUID) <= 65535
+//@ ensures twstat_times: err == nil && typeis(V.Message, MessageTwstat) ==> 0 <= unix(WS.AccessTime) && unix(WS.AccessTime) <= 4294967295 && WS.AccessTime == utc(unix(WS.AccessTime)) && 0 <= unix(WS.ModTime) && unix(WS.ModTime) <= 4294967295 && WS.ModTime == utc(unix(WS.ModTime))
+//@ ensures twstat_strings: err == nil && typeis(V.Message, MessageTwstat) ==> len(WS.Name) <= 65535 && len(WS.UID) <= 65535 && len(WS.GID) <= 65535 && len(WS.MUID) <= 65535
 
 // The stat record in right-nested form (what a reader peels off field by field); equal to encDir by associativity.
 //@ pure encDirR(d Dir) Bytes = bcat(le2(dirLen(d)), bcat(le2(d.Type), bcat(le4(d.Dev), bcat(le1(d.Qid.Type), bcat(le4(d.Qid.Version), bcat(le8(d.Qid.Path), bcat(le4(d.Mode), bcat(le4(unix(d.AccessTime)), bcat(le4(unix(d.ModTime)), bcat(le8(d.Length), bcat(le2(len(d.Name)), bcat(sbytes(d.Name), bcat(le2(len(d.UID)), bcat(sbytes(d.UID), bcat(le2(len(d.GID)), bcat(sbytes(d.GID), bcat(le2(len(d.MUID)), bcat(sbytes(d.MUID), bempty))))))))))))))))))
@@ -1506,10 +1513,17 @@ package p9p
 //@ func (codec9p).Unmarshal#dir
 //@ timeout 60
 //@ property C04
-//@ use bytes noassoc
+//@ use bytes noassoc time
 //@ dyn v : *Dir
 //@ requires v.(*Dir) != nil
 //@ ensures proportionate: dynalloc() - old(dynalloc()) <= 4 * len(data) && dynalloc() >= old(dynalloc())
+// every successfully decoded entry is representable again (strings within 16-bit lengths, whole-second UTC timestamps in
+// 32 bits): with Marshal#dir and Unmarshal#dirrt this is the stability clause for directory entries (re-encoding a decoded
+// entry and decoding it again yields the same entry)
+//@ let D = (*v.(*Dir))
+//@ ensures decoded_strings: err == nil ==> len(D.Name) <= 65535 && len(D.UID) <= 65535 && len(D.GID) <= 65535 && len(D.MUID) <= 65535
+//@ ensures decoded_atime: err == nil ==> 0 <= unix(D.AccessTime) && unix(D.AccessTime) <= 4294967295 && D.AccessTime == utc(unix(D.AccessTime))
+//@ ensures decoded_mtime: err == nil ==> 0 <= unix(D.ModTime) && unix(D.ModTime) <= 4294967295 && D.ModTime == utc(unix(D.ModTime))
 
 // DecodeDir reads one stat record from any reader: size[2], then size bytes, then decodes them.
 //@ func DecodeDir
